@@ -1,4 +1,5 @@
 import DiffxVerif.Model.Codecs
+import DiffxVerif.Model.JsonText
 import DiffxVerif.Spec.Document
 import DiffxVerif.Model.Split
 import DiffxVerif.Model.Hunks
@@ -172,6 +173,22 @@ def opCodec (args : List String) : String :=
   | [n, "d", b] => match decText n, decBytes b with
     | some name, some data => showR encText (env.decode name data)
     | _, _ => "E bad-args"
+  | _ => "E bad-args"
+
+/-- `json d <json>` : `JsonText.dumps`; `json l <text>` : `JsonText.loads` (the Lean model of the
+two `json` functions, compared with CPython by the harness) -/
+def opJson (args : List String) : String :=
+  match args with
+  | ["d", j] => match decJson j with
+    | some v => (match JsonText.dumps v with
+      | .ok t => "R ok " ++ encText t
+      | _ => "R err")
+    | none => "E bad-args"
+  | ["l", t] => match decText t with
+    | some text => (match JsonText.loads text with
+      | .ok v => "R ok " ++ encJson v
+      | _ => "R err")
+    | none => "E bad-args"
   | _ => "E bad-args"
 
 def opUntil (args : List String) : String :=
@@ -480,6 +497,7 @@ def runOp (s : DState) (toks : List String) : String :=
   | "read" :: args => opRead s.cfg s.tbl args
   | "specread" :: args => opSpecRead s.cfg s.tbl args
   | "codec" :: args => opCodec args
+  | "json" :: args => opJson args
   | "write" :: args => opWrite s.cfg s.tbl args
   | "lex" :: args => opLex args
   | "heap" :: args => opHeap args
